@@ -344,15 +344,34 @@ impl<'a> LocaleTranslations<'a> {
     }
 }
 
+/// Write `s` as a JSON string literal (RFC 8259): `"`, `\` and control characters are escaped,
+/// everything else is written as is.
+fn write_json_str(f: &mut std::fmt::Formatter<'_>, s: &str) -> std::fmt::Result {
+    f.write_char('"')?;
+    for c in s.chars() {
+        match c {
+            '"' => f.write_str("\\\"")?,
+            '\\' => f.write_str("\\\\")?,
+            '\n' => f.write_str("\\n")?,
+            '\r' => f.write_str("\\r")?,
+            '\t' => f.write_str("\\t")?,
+            c if c < ' ' => write!(f, "\\u{:04x}", c as u32)?,
+            c => f.write_char(c)?,
+        }
+    }
+    f.write_char('"')
+}
+
 impl Display for TranslationsFormatter<'_> {
     fn fmt(&self, f: &mut std::fmt::Formatter<'_>) -> std::fmt::Result {
         f.write_char('[')?;
         let mut iter = self.strings.iter();
         if let Some(first) = iter.next() {
-            write!(f, "{:?}", first)?;
+            write_json_str(f, first)?;
         }
         for s in iter {
-            write!(f, ",{:?}", s)?;
+            f.write_char(',')?;
+            write_json_str(f, s)?;
         }
         f.write_char(']')
     }
